@@ -8,27 +8,24 @@ def bundle_type(layout, scalar="double"):
     names = {"R1": "manif::R1", "R3": "manif::R3"}
     return "manif::Bundle<%s, %s>" % (scalar, ", ".join(names.get(k, "manif::" + k) for k in layout))
 
-def run(tier, seed):
-    rep = vlib.Report("C11", tier, seed)
-    rep.assumptions = ["value/Jacobian items are compared with the block-diagonal matrix model at the tolerances of ManifTrace.tla in strata where the element groups have no recorded finding; layout tables, element offsets, element-wise equality and off-block zeros are exact",
-                       "layouts: covering set (every group first/middle/last/alone/repeated; every two offset tables distinguishable) in quick, plus all layouts of length <= 2 and two of length 5 in thorough"]
+def collect(rep, tier, seed, prop="C11", ops=None):
+    """layouts from BundleLayout.tla -> recorders -> validated events (not yet judged); ops: restrict to these operations"""
     rc, out = vlib.tlc("BundleLayout", env={"TIER": tier}, workers=4, timeout=1200, extra=["-noGenerateSpecTE"])
     st = vlib.tlc_stats(out); rep.states += st[0]; rep.transitions += st[1]
     lays = [x for x in vlib.printed_json(out) if isinstance(x, dict) and "layout" in x]
     if rc != 0 or "No error has been found" not in out or not lays:
         raise vlib.ModelError("BundleLayout.tla failed:\n" + out[-3000:])
     lays.sort(key=lambda x: x["key"])
-    rep.exhaustive = False
     jobs = [dict(tag="rec_core_" + x["key"], src="rec_core.cpp", flags=["-std=c++14", "-include", os.path.join(vlib.HARN, "rec_bundle.h")],
                  defs=["REC_IS_BUNDLE", "REC_GROUP=" + bundle_type(x["layout"]), 'REC_KEY="%s"' % x["key"]]) for x in lays]
     res = vlib.build_many(jobs)
     bad = {t: l for t, (p, l) in res.items() if p is None}
-    wd = vlib.workdir("C11")
+    wd = vlib.workdir(prop + "bundle")
     for t, l in bad.items():
         # a layout that cannot be instantiated is itself a violation of the property (and of C19)
         rep.violations.append(("bundle layout %s does not compile: %s" % (t, " ".join(l.split("error")[1:2])[:300]), json.dumps({"e": "nocompile", "layout": t})))
     cells = []
-    for x in lays: cells += x["cells"]
+    for x in lays: cells += [dict(c, prop=prop) for c in x["cells"] if ops is None or c["op"] in ops]
     cells.sort(key=lambda c: json.dumps(c, sort_keys=True))
     plan = os.path.join(wd, "plan.txt"); vlib.write_plan(cells, plan)
     bins = {x["key"]: res["rec_core_" + x["key"]][0] for x in lays if res["rec_core_" + x["key"]][0]}
@@ -42,7 +39,14 @@ def run(tier, seed):
         lines += ls
     results, st2 = vlib.validate(lines, wd, nshards=vlib.NCPU)
     rep.states += st2[0]; rep.transitions += st2[1]
+    rep.extra["layouts"] = [x["key"] for x in lays]
+    return results
+
+def run(tier, seed):
+    rep = vlib.Report("C11", tier, seed)
+    rep.assumptions = ["value/Jacobian items are compared with the block-diagonal matrix model at the tolerances of ManifTrace.tla in strata where the element groups have no recorded finding; layout tables, element offsets, element-wise equality and off-block zeros are exact",
+                       "layouts: covering set (every group first/middle/last/alone/repeated; every two offset tables distinguishable) in quick, plus all layouts of length <= 2 and two of length 5 in thorough"]
+    results = collect(rep, tier, seed)
     rep.judge(results, lambda e, i: True)
     rep.cells = set((json.dumps(json.loads(r["ev"])["g"]), json.loads(r["ev"])["e"], json.loads(r["ev"]).get("st", "")[:40]) for r in results)
-    rep.extra["layouts"] = [x["key"] for x in lays]
     return rep.finish("layouts enumerated by BundleLayout.tla; per layout every Bundle operation on 3 strata + layout tables + element-wise equality; distinct = (layout, event, stratum)")
